@@ -1,5 +1,6 @@
 //! "sym" family (C12): catalogue attributes observed through the public API and SymbolList builder traces.
 use crate::catalogue::*;
+use crate::strings::{MACRO05_HEAD, MACRO_TRAIL};
 use crate::util::*;
 use datamatrix::{DataMatrix, DataMatrixBuilder, EncodationType, SymbolList, SymbolSize};
 use serde_json::{json, Value};
@@ -22,6 +23,8 @@ pub enum Op {
     /// encode n digits (ASCII only: ceil(n/2) codewords) / 3m X12 characters (X12 only: 2m+1 codewords, +1 unlatch unless it fills the symbol)
     ProbeDigits(usize),
     ProbeX12(usize),
+    /// macro 05 envelope around digits; the argument is subtracted from twice the capacity of the list's largest symbol
+    ProbeMacro(usize),
     Contains(SymbolSize),
 }
 
@@ -86,6 +89,7 @@ pub fn op_cases(tier: &str, seed: u64) -> Vec<Vec<Op>> {
         v.push(Op::ProbeDigits((2 * c + rng.below(3)).saturating_sub(1)));
         let c = CATALOGUE[rng.below(48)].data;
         v.push(Op::ProbeX12((c + rng.below(3)).saturating_sub(1) / 2));
+        v.push(Op::ProbeMacro(rng.below(12)));
         v
     };
     // single filters on both base lists, systematic bounds
@@ -200,6 +204,19 @@ pub fn op_case(idx: usize, ops: &[Op]) -> Value {
                     json!({"ev": "Extend", "names": v.iter().map(|s| size_name(*s)).collect::<Vec<_>>()})
                 }
                 Op::Contains(s) => json!({"ev": "Contains", "name": size_name(*s), "res": list.contains(s)}),
+                Op::ProbeMacro(delta) => {
+                    let maxcap = list.iter().map(capacity_of).max().unwrap_or(0);
+                    let n = (2 * maxcap).saturating_sub(*delta);
+                    let mut data = MACRO05_HEAD.to_vec();
+                    data.extend(std::iter::repeat(b'7').take(n));
+                    data.extend_from_slice(MACRO_TRAIL);
+                    let r = DataMatrixBuilder::new().with_encodation_types(EncodationType::Ascii).with_macros(true).with_symbol_list(list.clone()).encode(&data);
+                    let res = match r {
+                        Ok(d) => json!({"kind": "Ok", "size": size_name(d.size)}),
+                        Err(e) => json!({"kind": "Err", "err": format!("{:?}", e)}),
+                    };
+                    json!({"ev": "ProbeMacro", "n": n, "res": res})
+                }
                 Op::ProbeDigits(n) | Op::ProbeX12(n) => {
                     let (data, modes, name) = match op {
                         Op::ProbeDigits(_) => (vec![b'7'; *n], EncodationType::Ascii, "ProbeDigits"),
